@@ -18,7 +18,7 @@ from gwcs import wcs as gw
 
 PROP = "C11"
 LEAN_MODULE = "GwcsProofs.C11"
-SOURCES = ["GwcsModel/Tab.lean", "GwcsModel/Remap.lean", "GwcsProofs/C11.lean", "GwcsProofs/C11b.lean"]
+SOURCES = ["GwcsModel/Tab.lean", "GwcsModel/Remap.lean", "GwcsProofs/C11.lean", "GwcsProofs/C11b.lean", "GwcsProofs/C11c.lean"]
 THEOREMS = [
     "Gwcs.Tab.groups_pairwise_disjoint",
     "Gwcs.Tab.groups_cover",
@@ -35,6 +35,8 @@ THEOREMS = [
     "Gwcs.Remap.celestial_rows_clean",
     "Gwcs.Remap.other_rows_untouched",
     "Gwcs.Remap.missing_lat_zero_leaks",
+    "Gwcs.Tab.celestial_group_same_frame",
+    "Gwcs.Tab.split_celestial_not_paired",
 ]
 RULE = ("case = (WCS assembled from blocks sky 2->2, spectral/time/generic 1->1, coupled pair 2->2, slit 2->3, fan 1->2, fan 1->3 with 1..4 "
         "pixel axes, permutation of world axes, bounding box incl. offset/fractional, scalar or per-axis sampling, method to_fits_tab or "
@@ -191,6 +193,9 @@ def impl(case):
         res["err"] = C.exc_enum(e) if not isinstance(e, RuntimeError) else "runtimeErr"
         res["msg"] = type(e).__name__ + ":" + str(e)[:100]
         return res
+    of = w.output_frame
+    res["frames"] = [{"axes": [int(a) for a in f.axes_order], "cel": isinstance(f, cf.CelestialFrame)}
+                     for f in (of.frames if isinstance(of, cf.CompositeFrame) else [of])]
     corr = np.asarray(w.axis_correlation_matrix, dtype=bool)
     res["corr_cols"] = [[int(i) for i in np.flatnonzero(corr[:, j])] for j in range(npx)]
     res["components"] = _components(corr)
@@ -397,7 +402,7 @@ def request(case, res):
         return None
     samp = case["sampling"]
     samp = [samp] * res["npix"] if isinstance(samp, (int, float)) else samp
-    main = {"tag": "main", "sets": res["corr_cols"],
+    main = {"tag": "main", "sets": res["corr_cols"], "frames": res.get("frames", []),
             "axes": [{"lo": C.q2w(Fraction(lo)), "hi": C.q2w(Fraction(hi)), "s": C.q2w(Fraction(s))} for (lo, hi), s in zip(res["bb"], samp)],
             "used": [], "insert": list(range(res["npix"]))[::-1]}
     reqs = [main]
@@ -438,6 +443,12 @@ def compare(case, res, resp):
     if m["groups"] != sorted(res["components"]) and sorted(m["groups"]) != sorted(res["components"]):
         return "separable groups: model %s, connected components %s" % (m["groups"], res["components"])
     c = res["cards"]
+    if case["method"] == "mixed" and "ctype" in res:
+        # which world axes went to the SIP/linear part: exactly the model's celestial pair (if any)
+        lin_axes = sorted(i for i, ct in enumerate(res["ctype"][:res["nworld"]]) if not ct.endswith("-TAB"))      # (beyond: the reader's own table-index axes)
+        want = sorted(a for g in m["celestial"] for a in g)
+        if lin_axes != want:
+            return "world axes carried by the linear part: header %s (CTYPE %s), model's celestial pair %s" % (lin_axes, res["ctype"], want)
     if "tab_axes" not in res:
         return None        # the standard reader refused the header: the oracle reports that; nothing further to compare
     for j, a in enumerate(m["axes"]):
